@@ -130,17 +130,20 @@ structure ScanRes where
   complete : Bool
 deriving Repr, Inhabited
 
-def scanLoop (T : Tables) (src : Str) : Nat → Nat → Str → ScanRes
-  | _, _, [] => { toks := [], diags := [], complete := true }
-  | 0, _, _ :: _ => { toks := [], diags := [], complete := false }
+/-- the scanner loop as a list of steps; the flag is `false` iff the fuel ran out
+    or a step did not advance -/
+def scanSteps (T : Tables) (src : Str) : Nat → Nat → Str → List ScanStep × Bool
+  | _, _, [] => ([], true)
+  | 0, _, _ :: _ => ([], false)
   | fuel + 1, pos, rest@(_ :: _) =>
     let s := nextToken T src pos rest
-    if s.len == 0 then { toks := [], diags := [], complete := false } else
-    let r := scanLoop T src fuel (pos + s.len) (rest.drop s.len)
-    { toks := s.tok :: r.toks, diags := s.diag.toList ++ r.diags, complete := r.complete }
+    if s.len == 0 then ([], false) else
+    let r := scanSteps T src fuel (pos + s.len) (rest.drop s.len)
+    (s :: r.1, r.2)
 
 /-- `Scanner.scan` -/
 def scan (T : Tables) (src : Str) : ScanRes :=
-  scanLoop T src src.length 0 src
+  let r := scanSteps T src src.length 0 src
+  { toks := r.1.map (·.tok), diags := (r.1.map (·.diag.toList)).flatten, complete := r.2 }
 
 end Yalafi
